@@ -394,6 +394,8 @@ fn cmd_check(args: &[String]) -> i32 {
             "exhaustive": false,
             "exhaustive_per_sample": def.exhaustive_per_sample,
             "runs": m.runs,
+            "distinct_interleavings": m.cases.get("interleavings").map(|s| s.len()).unwrap_or(0),
+            "interleaving_measure": "distinct (operation pair, sequence of which simulated caller thread proceeded at each scheduling point) over all two-caller operations of the batch",
             "seeds": format!("run i uses mix(VERIF_SEED={seed}, property, tier, i), i in 0..{}", m.runs),
             "worlds": m.worlds,
             "events_simulated_time": m.ops,
